@@ -201,6 +201,11 @@ func (self *linkedPairs) BuildIndex() {
 	}
 	for i := 0; i < self.size; i++ {
 		p := self.At(i)
+		if _, dup := self.index[p.hash]; dup {
+			// a repeated key (or hash): lookups must keep finding the first occurrence, stay linear
+			self.index = nil
+			return
+		}
 		self.index[p.hash] = i
 	}
 }
